@@ -315,6 +315,17 @@ def abstract_cuts(chk, work, q):
             chk.machinery(f"TLC refuted {res['violated']} on Poller.tla")
     except tlc.TLCError as exc:
         chk.machinery(str(exc)[:1000])
+    # beyond the bounds of TLC: NoTornFrame (and the engine clauses StopsAtFirstOutside, ProgramStopped) as an inductive invariant
+    # of Poller.tla for every number of frames, units per frame (>= 2), polls, stop position and length limit (Apalache, symbolic)
+    ind = []
+    for label, args in (("Init => IndInv", ["--cinit=ConstInit", "--init=Init", "--inv=IndInv", "--length=0"]),
+                        ("IndInv /\\ Next => IndInv'", ["--cinit=ConstInit", "--init=IndInit", "--inv=IndInv", "--length=1"])):
+        r = tlc.run_apalache("ApaPoller.tla", args, timeout=600)
+        ind.append({"step": label, "outcome": r["outcome"], "wall_s": r["wall_s"]})
+        if r["outcome"] == "error":
+            chk.machinery(f"Apalache refuted the inductive invariant of Poller.tla ({label}):\n{r['tail']}")
+    chk.cov["apalache_inductive_invariant"] = {"module": "ApaPoller.tla", "constants": "F, MaxPolls in 1..1000, U in 2..1000, StopAt, MaxLen in 1..1001 (symbolic)", "steps": ind}
+    print(f"  Apalache, inductive invariant of Poller.tla for symbolic constants: {[(i['step'], i['outcome']) for i in ind]}", flush=True)
     out = os.path.join(work, "psim")
     os.makedirs(out, exist_ok=True)
     tlc.run_tlc("Poller", cfg, workers=2, simulate=f"file={out}/tr,num={60 if q else 600}", depth=30, seed=chk.seed + 5, coverage=False,
